@@ -429,6 +429,7 @@ func (x *Exec) registerLib() {
 		"github.com/cosmos72/gomacro/base/strings.Split2",
 		"go/ast.IsExported",
 		"reflect.ValueOf",
+		"reflect.TypeOf",
 		"(reflect.Value).Pointer",
 	} {
 		pureUF(n)
